@@ -206,14 +206,26 @@ class FieldData:
         self.complex_mode = complex_mode
         self.max_degree = max_degree
         self.scale = {}  # key -> scalar multiplier (used by linearity checks)
-        self.extra = {}  # key -> key of a second field added to this one (additivity checks)
+        self.variant = {}  # key -> [(salt, multiplier)]: the field is that linear combination (linearity checks)
 
     def _poly(self, key, point, degree, imag_ok):
-        v = poly_eval((self.salt, key, "re"), point, degree)
+        """Field polynomial; self.variant[fkey] = [(salt, multiplier), ...] makes the field a linear combination."""
+        fkey = key[0]
+        terms = self.variant.get(fkey)
+        if terms is None:
+            return self._poly1(self.salt, key, point, degree, imag_ok)
+        tot = None
+        for salt, mult in terms:
+            t = self._poly1(salt, key, point, degree, imag_ok) * mult
+            tot = t if tot is None else tot + t
+        return tot
+
+    def _poly1(self, salt, key, point, degree, imag_ok):
+        v = poly_eval((salt, key, "re"), point, degree)
         if self.complex_mode and imag_ok:
             from mpmath import mpc
 
-            v = v + mpc(0, 1) * poly_eval((self.salt, key, "im"), point, degree)
+            v = v + mpc(0, 1) * poly_eval((salt, key, "im"), point, degree)
         return v
 
     def reference_value(self, fkey, element, cell, side, Xjets, xjets, imag_ok=True):
